@@ -94,9 +94,9 @@ def add_bystanders(rng, s):
                 scen.add_parents(t, q)
                 t[q] = ("R", rng.choice([0o644, 0o600, 0o444]), b"bystander " + q.encode("latin-1") + b"\n")
         if rng.random() < 0.3 and p + ".orig" not in t:
-            t[p + ".orig"] = ("R", 0o644, b"old backup\n")
+            scen.add_parents(t, p); t[p + ".orig"] = ("R", 0o644, b"old backup\n")
         if rng.random() < 0.3 and p + ".rej" not in t:
-            t[p + ".rej"] = ("R", 0o644, b"old reject\n")
+            scen.add_parents(t, p); t[p + ".rej"] = ("R", 0o644, b"old reject\n")
     return s
 
 
@@ -178,6 +178,10 @@ def judge_c17(s, r):
         else:
             want = int(x["mode_new"][-3:], 8) if x.get("mode_new") else src[1]
         refused = bool(re.search(r"^File %s is read-only; refusing to patch" % re.escape(p), out, flags=re.M))
+        # a patch that was skipped as already applied is not applied: its new mode is not due either
+        blk = next((b_ for b_ in blocks if b_.startswith(dst_path + "\n") or b_.startswith(dst_path + " ")), "")
+        if "Skipping patch" in blk:
+            want = src[1]
         if refused or aborted or s["opts"].get("dry"):
             if refused and after.get(p) and (after[p][1], after[p][2]) != (src[1], src[2]):
                 return "the refused target %s changed (mode %o -> %o)" % (p, src[1], after[p][1])
